@@ -5,4 +5,4 @@ c=$(tools/confirm_mutant.sh "$D" 2>&1 | tail -1)
 echo "$c"
 r=$(tools/try_patch.sh "$D/patch.diff" "$@" 2>&1)
 echo "$r"
-{ echo "== $D"; echo "$c"; echo "$r" | grep -E "rc=|signature" ; } >> /tmp/mut/results.txt
+{ echo "== $D"; echo "$c"; echo "$r" | grep -E "rc=|signature" ; } >> ${RESULTS:-/tmp/mut/results.txt}
